@@ -217,6 +217,9 @@ def run(c, chk):
     flag_words(c, chk, rid_ctx='R16.6')
     from . import c02 as _c02
     _c02.table_growth(c, chk, 'R16.8')
+    # R16.12: the private copy is reallocated and freed by its context: nothing else holds a pointer into it
+    from . import c07 as _c07t
+    _c07t.table_pointers_not_kept(c, chk, rid='R16.12')
     # R16.11: the scanner is shared by all contexts: where one leaves it must not matter to the next
     if not isinstance(chk, report.SubCheck):
         chk.rule('R16.11', 'every scan begins in the initial start condition (rule R8.1 of C08): a context is not read as the continuation of a comment another context ended in')
